@@ -317,6 +317,17 @@ def scn_edges(info, d, cap_edges=10, cap_bits=4):
         # the Default impl, then every reader
         out.append([op_line('default'), op_line('state')] + [op_line(f'read {x}') for x in data_states] +
                    [op_line(f'into {init}')] + [op_line(f'topt {x}') for x in data_states] + [op_line('drop')])
+    if dyn:
+        # data of a superstate: set it from every leaf beneath, convert to the typed machine and back, read again
+        for sp in info['storage']:
+            if sp['leaf']:
+                continue
+            for (leaf, anc) in info['substates']:
+                if anc != sp['state'] or leaf not in paths:
+                    continue
+                out.append([op_line('newdyn 4')] + [op_line(call(x, '8'), guards, None) for x in paths[leaf]] +
+                           [op_line(f'set {sp["state"]} 7'), op_line(f'read {sp["state"]}'), op_line(f'into {leaf}'),
+                            op_line(f'topt {sp["state"]}'), op_line('todyn'), op_line(f'read {sp["state"]}'), op_line('drop')])
     for e in info['edges'][:cap_edges]:
         if e['src'] not in paths:
             continue
